@@ -852,6 +852,36 @@ pub fn run_c02(ctx: &Ctx) -> i32 {
             corpus::Outcome::Err(e) => ctx.violation("convert:generated-project-rejected", &e, json!({"spec": format!("{:?}", s)})),
             corpus::Outcome::Panic(p) => ctx.violation(&format!("panic:{}", panic_key(&p)), &p, json!({"spec": format!("{:?}", s)})),
         }
+        // the same project with one more space that owns no element of its own and is only named as the other side of
+        // the slab between the storeys: closed, or rejected
+        if s.storeys == 2 {
+            let text = crate::projgen::ctehexml_text(s);
+            let (sp0, sp1) = (crate::projgen::space_name(0), crate::projgen::space_name(1));
+            let hdr = format!("\"{}\" = SPACE", sp0);
+            let pol1 = format!("\"{}_Pol\" = POLYGON", sp1);
+            let slab = format!("\"{}_FI001\" = INTERIOR-WALL", sp1);
+            if let (Some(a), Some(ins), Some(sl)) = (text.find(&hdr), text.find(&pol1), text.find(&slab)) {
+                let b = a + text[a..].find("\n    ..\n").map_or(0, |x| x + 8);
+                let extra = text[a..b].replace(&hdr, "\"P01_E99\" = SPACE").replace(&format!("nCompleto = \"{}\"", sp0), "nCompleto = \"P01_E99\"");
+                let slab_end = sl + text[sl..].find("\n    ..\n").map_or(0, |x| x + 8);
+                let slab_new = text[sl..slab_end].replace(&format!("NEXT-TO = \"{}\"", sp0), "NEXT-TO = \"P01_E99\"");
+                if b > a && ins > b && sl > ins && slab_new != text[sl..slab_end] {
+                    let t2 = format!("{}{}{}{}{}", &text[..ins], extra, &text[ins..sl], slab_new, &text[slab_end..]);
+                    ctx.eval(1);
+                    match corpus::convert_text(&t2, false) {
+                        corpus::Outcome::Ok(m) => {
+                            ctx.nontriv(1);
+                            let d = crate::refm::closure_defects(&m);
+                            if !d.is_empty() || !bemodel::check(&m).is_empty() {
+                                ctx.violation("closure:generated-project:space-without-elements-as-adjacent-space", &format!("a space that owns no element and is the other side of a slab: the converted model is not closed: {:?}", d.iter().take(3).collect::<Vec<_>>()), json!({"spec": format!("{:?}", s), "extra_space": "P01_E99"}));
+                            }
+                        }
+                        corpus::Outcome::Err(_) => {}
+                        corpus::Outcome::Panic(p) => ctx.violation(&format!("panic:{}", panic_key(&p)), &p, json!({"spec": format!("{:?}", s), "extra_space": "P01_E99"})),
+                    }
+                }
+            }
+        }
     }
     // (b') name clashes across definition kinds: a definition of kind B (and all references to it) is renamed to the
     // name of a definition of kind A; every kind has its own namespace, so the conversion must give the same model
